@@ -34,8 +34,10 @@
 (*                                                                         *)
 (* CodeMode = "code": the pinned tree.  CodeMode = "fixed": what the       *)
 (* statement wants (entry GC keeps the entry while reservations or         *)
-(* pending-disruption claims exist; Release tolerates a missing entry;     *)
-(* StartCommand gives its reservation back when it fails before creating). *)
+(* pending-disruption claims exist; Release tolerates a missing entry; a   *)
+(* provider-id change does not run Cleanup; the Mark* methods ignore       *)
+(* claims that are not tracked; StartCommand gives its reservation back    *)
+(* when it fails before creating the replacement).                         *)
 (* Grain = "call": every action interleaves.  Grain = "gate": only API     *)
 (* calls are scheduling points (what the harness can realise on the real   *)
 (* controllers by blocking goroutines at the API choke point).             *)
@@ -51,6 +53,9 @@ CONSTANTS N,             \* NodeClaim names are 1..N, used once each in creation
           CodeMode,      \* "code" | "fixed"
           Grain,         \* "call" | "gate"
           MaxCreateFail, MaxTaintFail, MaxDelete, MaxDrift, MaxScale, MaxTimeout, MaxResync,
+          MaxFlip,       \* informer deliveries that overtake StartCommand and put a pending-disruption candidate back
+                         \* into Active (99 = unbounded; bounded for liveness: an adversary that repeats the unlucky
+                         \* timing for ever is not what "settles" quantifies over)
           Record,        \* "all": history h recorded (generator); "last": only the last action is kept (diagnosis; hidden
                          \* by the VIEW of the checking configs); "none": nothing recorded (liveness checking, no VIEW)
           MaxLen         \* generator depth bound (Record = "all")
@@ -89,11 +94,17 @@ view == <<api, launched, drifted, replicas, known, marked, cdel, dirty, tainted,
 \* the struct as implemented: the three sets and the reserved counter exist only while the per-pool entry does
 EmptyPS == [entry |-> FALSE, act |-> {}, del |-> {}, pend |-> {}, res |-> 0, map |-> {}]
 Ensure(s) == IF s.entry THEN s ELSE [s EXCEPT !.entry = TRUE]
-PsMarkActive(s, n)   == LET t == Ensure(s) IN [t EXCEPT !.act = @ \cup {n}, !.del = @ \ {n}, !.pend = @ \ {n}]
-PsMarkDeleting(s, n) == LET t == Ensure(s) IN [t EXCEPT !.del = @ \cup {n}, !.act = @ \ {n}, !.pend = @ \ {n}]
-PsMarkPending(s, n)  == LET t == Ensure(s) IN [t EXCEPT !.pend = @ \cup {n}, !.act = @ \ {n}, !.del = @ \ {n}]
+\* the Mark* methods do not consult the claim->pool mapping: marking a claim whose Cleanup already ran re-inserts a
+\* name that nothing will ever remove again.  "fixed": a claim that is not tracked (any more) is not marked.
+Skip(s, n, mode) == mode = "fixed" /\ n \notin s.map
+PsMarkActive(s, n, mode)   == IF Skip(s, n, mode) THEN s ELSE
+                              LET t == Ensure(s) IN [t EXCEPT !.act = @ \cup {n}, !.del = @ \ {n}, !.pend = @ \ {n}]
+PsMarkDeleting(s, n, mode) == IF Skip(s, n, mode) THEN s ELSE
+                              LET t == Ensure(s) IN [t EXCEPT !.del = @ \cup {n}, !.act = @ \ {n}, !.pend = @ \ {n}]
+PsMarkPending(s, n, mode)  == IF Skip(s, n, mode) THEN s ELSE
+                              LET t == Ensure(s) IN [t EXCEPT !.pend = @ \cup {n}, !.act = @ \ {n}, !.del = @ \ {n}]
 PsUpdate(s, n, mfd)  == LET t == [Ensure(s) EXCEPT !.map = @ \cup {n}]
-                        IN IF mfd THEN PsMarkDeleting(t, n) ELSE PsMarkActive(t, n)
+                        IN IF mfd THEN PsMarkDeleting(t, n, "code") ELSE PsMarkActive(t, n, "code")
 \* Cleanup finds the pool through the claim->pool mapping; it garbage-collects the pool entry (sets AND reserved
 \* counter) when Active and Deleting are empty.  "fixed": only when nothing at all is left to remember.
 PsCleanup(s, n, mode) ==
@@ -152,7 +163,7 @@ Init ==
     /\ dis = [pc |-> "idle", cands |-> {}, want |-> 0]
     /\ cmd = [c \in NCs |-> NoCmd]
     /\ queue = {} /\ inf = [n \in NCs |-> "idle"] /\ crash = FALSE
-    /\ bud = [cf |-> 0, tf |-> 0, del |-> 0, dr |-> 0, sc |-> 0, to |-> 0, rs |-> 0]
+    /\ bud = [cf |-> 0, tf |-> 0, del |-> 0, dr |-> 0, sc |-> 0, to |-> 0, rs |-> 0, fl |-> 0]
     /\ h = <<>> /\ last = [a |-> "Init"]
 
 \* ---------------------------------------------------------------- static provisioning reconcile
@@ -163,6 +174,9 @@ UnchOthers(keep) == TRUE
 P_Count ==
     /\ Turn(FALSE) /\ prov.pc = "idle"
     /\ Cardinality(ps.act) + Cardinality(ps.pend) < replicas
+    \* "gate" grain: count and reserve are one step; a reconcile that is granted nothing changes nothing and is left
+    \* out (it would only make the others' actions "enabled again and again" instead of continuously, see Fairness)
+    /\ Grain = "gate" => PsGrant(Ensure(ps), Limit, replicas - Cardinality(ps.act)) > 0
     /\ prov' = [pc |-> "reserve", want |-> replicas - Cardinality(ps.act)]
     /\ Hist([a |-> "P_Count", act |-> Cardinality(ps.act), pend |-> Cardinality(ps.pend), replicas |-> replicas])
     /\ UnchApi /\ UnchCluster /\ UNCHANGED <<ps, wk, dep, dis, cmd, queue, inf, crash, bud>>
@@ -257,7 +271,7 @@ D_Delete(n) ==
 
 D_Mark(n) ==
     /\ Turn(MidDep) /\ dep.pc = "work" /\ n \in dep.dm
-    /\ ps' = PsMarkDeleting(ps, n)
+    /\ ps' = PsMarkDeleting(ps, n, CodeMode)
     /\ dep' = IF dep.dq = {} /\ dep.dm = {n} THEN [pc |-> "idle", k |-> 0, dq |-> {}, dm |-> {}]
               ELSE [dep EXCEPT !.dm = @ \ {n}]
     /\ Hist([a |-> "D_Mark", n |-> n])
@@ -271,6 +285,9 @@ X_Begin ==
     /\ Turn(FALSE) /\ dis.pc = "idle" /\ Synced /\ \A c \in NCs : cmd[c].pc = "none"
     /\ LET stale == {c \in tainted : c \notin QC /\ ~MFD(c)} IN
        /\ (stale # {} \/ DriftCands # {})
+       /\ (Grain = "gate" /\ stale = {}) =>
+             /\ Cardinality(ps.act) + Cardinality(ps.pend) <= replicas /\ Budget > 0
+             /\ PsGrant(Ensure(ps), Limit, Min(Budget, Cardinality(DriftCands))) > 0
        /\ tainted' = tainted \ stale
        /\ dirty' = dirty \cup (stale \cap InApi)
        /\ dis' = IF DriftCands = {} THEN dis ELSE [pc |-> "count", cands |-> DriftCands, want |-> 0]
@@ -315,7 +332,7 @@ X_Taint(c, ok) ==
 
 X_Pend(c) ==
     /\ Turn(MidCmd(c)) /\ cmd[c].pc = "pend"
-    /\ ps' = PsMarkPending(ps, c)
+    /\ ps' = PsMarkPending(ps, c, CodeMode)
     /\ cmd' = [cmd EXCEPT ![c].pc = "creating"]
     /\ wk' = [wk EXCEPT ![XW(c)] = [pc |-> FirstPc, n |-> 0]]
     /\ Hist([a |-> "X_Pend", c |-> c])
@@ -324,7 +341,7 @@ X_Pend(c) ==
 \* cluster.MarkForDeletion(providerID): only for a state node the cluster knows
 X_MarkDel(c) ==
     /\ Turn(MidCmd(c)) /\ cmd[c].pc = "markdel"
-    /\ IF known[c] = "pid" THEN marked' = marked \cup {c} /\ ps' = PsMarkDeleting(ps, c)
+    /\ IF known[c] = "pid" THEN marked' = marked \cup {c} /\ ps' = PsMarkDeleting(ps, c, CodeMode)
                            ELSE UNCHANGED <<marked, ps>>
     /\ cmd' = [cmd EXCEPT ![c].pc = "enq"]
     /\ Hist([a |-> "X_MarkDel", c |-> c])
@@ -352,7 +369,7 @@ Q_Fail(q, timeout) ==
     /\ LET c == q[1] IN
        /\ IF known[c] = "pid"
             THEN /\ marked' = marked \ {c}
-                 /\ ps' = IF c \notin cdel THEN PsMarkActive(ps, c) ELSE ps
+                 /\ ps' = IF c \notin cdel THEN PsMarkActive(ps, c, CodeMode) ELSE ps
             ELSE UNCHANGED <<marked, ps>>
        /\ tainted' = tainted \ {c}
        /\ dirty' = IF c \in tainted /\ api[c] \in {"live", "deleting"} THEN dirty \cup {c} ELSE dirty
@@ -387,10 +404,13 @@ I_Deliver(n) ==
                 /\ inf' = [inf EXCEPT ![n] = IF api[n] = "deleting" THEN "upd-del" ELSE "upd-live"]
                 /\ UNCHANGED <<known, marked, cdel>>
                 /\ Hist([a |-> "I_Deliver", n |-> n, what |-> "relaunch"])
-           ELSE /\ ApplyUpdate(n, api[n] = "deleting", ps)
+           ELSE /\ (n \in ps.pend /\ MaxFlip # 99) => Used("fl") < MaxFlip
+                /\ ApplyUpdate(n, api[n] = "deleting", ps)
                 /\ UNCHANGED <<marked, inf>>
                 /\ Hist([a |-> "I_Deliver", n |-> n, what |-> IF api[n] = "deleting" THEN "deleting" ELSE "live"])
-    /\ UnchApi /\ UNCHANGED <<tainted, prov, wk, dep, dis, cmd, queue, crash, bud>>
+    /\ bud' = IF api[n] # "gone" /\ ~(known[n] = "nopid" /\ n \in launched /\ CodeMode = "code") /\ n \in ps.pend /\ MaxFlip # 99
+              THEN [bud EXCEPT !.fl = @ + 1] ELSE bud
+    /\ UnchApi /\ UNCHANGED <<tainted, prov, wk, dep, dis, cmd, queue, crash>>
 
 I_Update(n) ==
     /\ Turn(MidInf(n)) /\ inf[n] # "idle"
@@ -439,9 +459,10 @@ Scale(r) ==
     /\ Hist([a |-> "Scale", r |-> r])
     /\ UNCHANGED <<api, launched, drifted, known, marked, cdel, dirty, tainted, ps, prov, wk, dep, dis, cmd, queue, inf, crash>>
 
-\* the informer controller requeues every existing NodeClaim periodically
+\* the informer controller requeues every existing NodeClaim periodically (MaxResync = 99: without bound)
 Resync(n) ==
-    /\ Turn(FALSE) /\ api[n] \in {"live", "deleting"} /\ n \notin dirty /\ Used("rs") < MaxResync /\ Spend("rs")
+    /\ Turn(FALSE) /\ api[n] \in {"live", "deleting"} /\ n \notin dirty
+    /\ IF MaxResync = 99 THEN UNCHANGED bud ELSE Used("rs") < MaxResync /\ Spend("rs")
     /\ dirty' = dirty \cup {n}
     /\ Hist([a |-> "Resync", n |-> n])
     /\ UNCHANGED <<api, launched, drifted, replicas, known, marked, cdel, tainted, ps, prov, wk, dep, dis, cmd, queue, inf, crash>>
@@ -472,7 +493,7 @@ Fairness ==
     /\ \A w \in Workers : WF_vars(W_Get(w)) /\ WF_vars(W_Create(w, TRUE)) /\ WF_vars(W_Seed(w)) /\ WF_vars(W_Release(w))
     /\ \A n \in NCs : /\ WF_vars(D_Delete(n)) /\ WF_vars(D_Mark(n)) /\ WF_vars(X_Taint(n, TRUE)) /\ WF_vars(X_Pend(n))
                       /\ WF_vars(X_MarkDel(n)) /\ WF_vars(X_Enq(n)) /\ WF_vars(I_Deliver(n)) /\ WF_vars(I_Update(n))
-                      /\ WF_vars(GC(n)) /\ WF_vars(Launch(n)) /\ WF_vars(Finalize(n))
+                      /\ WF_vars(GC(n)) /\ WF_vars(Launch(n)) /\ WF_vars(Finalize(n)) /\ WF_vars(Resync(n))
     /\ \A q \in NCs \X NCs : WF_vars(Q_Delete(q)) /\ WF_vars(Q_Fail(q, FALSE))
 LiveSpec == Spec /\ Fairness
 
@@ -495,8 +516,13 @@ Inv_C03_PendingTracked == \A c \in NCs : (cmd[c].pc = "creating" /\ api[c] # "go
 \* no name exhaustion in the explored scope (else liveness would fail for lack of names)
 Inv_NamesSuffice == (\E w \in Workers : wk[w].pc = "create") => Free # {}
 
+\* "settles at the replica count": once the environment's budgets are spent the pool reaches and keeps `replicas`
+\* live NodeClaims and nothing is left terminating.  Unlucky timing can cost a round (an informer event overtakes a
+\* reconcile and a fresh claim is deprovisioned again); every such round uses up a fresh name, so a behaviour that
+\* keeps being unlucky runs out of the N names of the model and is not counted against the controller.  What is left
+\* are behaviours that stop converging although names remain: a leaked reservation, an entry nothing removes.
 Settled == Cardinality(Live) = replicas /\ InApi = Live
-Live_C03_Settles == <>[]Settled
+Live_C03_Settles == <>[](Settled \/ Free = {})
 
 GenPrint == (Len(h) < MaxLen /\ ~crash /\ ENABLED Next) \/ Record # "all" \/ PrintT(<<"BEH", ToJson(h)>>)
 =============================================================================
